@@ -861,7 +861,7 @@ func (f *FnVC) varsAtHead(li *loopInfo) {
 					}
 				} else if _, ok := li.names[n]; !ok {
 					if _, ok2 := li.addrNames[n]; !ok2 {
-						li.names[n] = x.X
+						li.names[n] = dbgValue(x)
 					}
 				}
 			case *ssa.Phi:
